@@ -50,6 +50,10 @@ pub struct IndexD {
     pub name: String,
     pub offset: u32,
     pub count: u32,
+    #[serde(default)]
+    pub free_data: Vec<u8>,
+    #[serde(default)]
+    pub index_key: u8,
 }
 
 #[derive(Deserialize, Clone)]
@@ -71,6 +75,8 @@ pub struct Scn {
     pub finds: Vec<FindD>,
     #[serde(default)]
     pub read_stride: u32,
+    #[serde(default)]
+    pub free_data: Vec<u8>,
 }
 
 fn leak(s: &str) -> &'static str {
@@ -144,7 +150,7 @@ pub fn build(s: &Scn, pack_id: u16) -> Built {
     let mut creator = jbk::creator::DirectoryPackCreator::new(
         jbk::PackId::from(pack_id),
         jbk::VendorId::from([1, 0, 0, 0]),
-        Default::default(),
+        crate::content::free24(&s.free_data).into(),
     );
     let handles = populate(s, &mut creator);
     Built { creator, handles }
@@ -206,10 +212,14 @@ pub fn populate(
     }
     let sid = creator.add_entry_store(store);
     for ix in &s.indexes {
+        let mut fd = [0u8; 4];
+        for (i, b) in ix.free_data.iter().take(4).enumerate() {
+            fd[i] = *b;
+        }
         creator.create_index(
             &ix.name,
-            Default::default(),
-            0.into(),
+            fd.into(),
+            ix.index_key.into(),
             sid,
             ix.count.into(),
             jbk::EntryIdx::from(ix.offset).into(),
@@ -399,6 +409,7 @@ fn read_back(s: &Scn, path: &str) -> Result<(), String> {
         }
     }
     use jbk::Pack;
+    emit(json!({"ev":"FreeData","data":pack.get_free_data().to_vec()}));
     match pack.check() {
         Ok(b) => emit(json!({"ev":"Check","res":b})),
         Err(e) => emit(json!({"ev":"Check","res":"err","err":e.to_string()})),
